@@ -75,7 +75,13 @@ struct TypeSet {
     structs: HashMap<String, A2mlTypeSpec>,
     taggedstructs: HashMap<String, A2mlTypeSpec>,
     taggedunions: HashMap<String, A2mlTypeSpec>,
+    // current nesting depth of the type that is being parsed
+    depth: std::cell::Cell<usize>,
 }
+
+// The maximum nesting depth of types in A2ML and of blocks in IF_DATA. The parsers for these are recursive
+// and build recursive data structures, so unlimited nesting would exhaust the stack.
+pub(crate) const MAX_NESTING_DEPTH: usize = 256;
 
 type A2mlTokenIter<'a> = std::iter::Peekable<std::slice::Iter<'a, TokenType>>;
 
@@ -433,6 +439,7 @@ pub(crate) fn parse_a2ml(
         structs: HashMap::<String, A2mlTypeSpec>::new(),
         taggedstructs: HashMap::<String, A2mlTypeSpec>::new(),
         taggedunions: HashMap::<String, A2mlTypeSpec>::new(),
+        depth: std::cell::Cell::new(0),
     };
 
     // at the top level the applicable grammar rule is
@@ -507,6 +514,21 @@ pub(crate) fn parse_a2ml(
 //    type_name = predefined_type_name | struct_type_name | taggedstruct_type_name | taggedunion_type_name | enum_type_name
 //    predefined_type_name = "char" | "int" | "long" | "uchar" | "uint" | "ulong" | "double" | "float"
 fn parse_aml_type(
+    tok_iter: &mut A2mlTokenIter,
+    types: &TypeSet,
+    tok_start: &TokenType,
+) -> Result<(Option<String>, A2mlTypeSpec), String> {
+    let depth = types.depth.get() + 1;
+    if depth > MAX_NESTING_DEPTH {
+        return Err(String::from("A2ML Error: types are nested too deeply"));
+    }
+    types.depth.set(depth);
+    let result = parse_aml_type_inner(tok_iter, types, tok_start);
+    types.depth.set(depth - 1);
+    result
+}
+
+fn parse_aml_type_inner(
     tok_iter: &mut A2mlTokenIter,
     types: &TypeSet,
     tok_start: &TokenType,
@@ -823,7 +845,13 @@ fn parse_aml_member(tok_iter: &mut A2mlTokenIter, types: &TypeSet) -> Result<A2m
     let tok_start = nexttoken(tok_iter)?;
     let (_, mut base_type) = parse_aml_type(tok_iter, types, tok_start)?;
 
+    let mut array_dims = 0;
     while let Some(TokenType::OpenSquareBracket) = tok_iter.peek() {
+        // every array dimension is one level of nesting in the data structure
+        array_dims += 1;
+        if array_dims > MAX_NESTING_DEPTH {
+            return Err(String::from("A2ML Error: too many array dimensions"));
+        }
         /* get the array dim */
         require_token_type(tok_iter, &TokenType::OpenSquareBracket)?;
         let dim = require_constant(tok_iter)?;
